@@ -413,6 +413,80 @@ fn derived_format_check(ctx: &mut Ctx, base: Fmt, bi: usize, ci: usize) {
     }
 }
 
+/// formats that differ from a shipped one only in their blank (a multi-byte or a multi-character one):
+/// the string, character-vector and batch entry points agree on blank-led, blank-trailed and
+/// blank-separated spellings, on this thread and on a fresh one
+fn blank_variant_check(ctx: &mut Ctx, base: Fmt) {
+    use crate::desc::*;
+    use crate::surface::{tokens, Sugar};
+    for blank in ["\u{3000}", "\u{a0}\u{a0}", "~~"] {
+        let mut derived: EF = derived_format(base, 0, "").0;
+        derived.statement.copula_inheritance = derived_format(base, 0, "").1; // (restore the copula)
+        derived.space.parse = blank;
+        let values = [
+            ND::Term(TD::bin(Kind::Inh, TD::word("A"), TD::comp(Kind::Product, vec![TD::word("B"), TD::atom(Kind::IVar, "x")]))),
+            ND::Sent(SD { term: TD::bin(Kind::Sim, TD::word("A"), TD::word("B")), punct: PunctD::Judgement, stamp: StampD::Present, truth: vec![1.0, 0.9] }),
+            ND::Task(KD { sent: SD { term: TD::comp(Kind::SetExt, vec![TD::word("A"), TD::word("B")]), punct: PunctD::Goal, stamp: StampD::Fixed(-5), truth: vec![0.5] }, budget: vec![0.5, 0.25] }),
+        ];
+        let mut texts: Vec<String> = vec![];
+        for nd in &values {
+            let toks = tokens(base, nd, &mut Sugar::default());
+            let compact = toks.concat();
+            texts.push(compact.clone());
+            texts.push(format!("{}{}", blank, compact));
+            texts.push(format!("{}{}{}", blank, blank, compact));
+            texts.push(format!("{}{}", compact, blank));
+            texts.push(toks.join(blank));
+        }
+        ctx.report.eval();
+        ctx.report.bump("family.blank-variant-formats");
+        ctx.report.nontrivial(&format!("blank-variant|{}|{:?}", base.name(), blank));
+        let run = |e: &EF, texts: &[String]| -> Vec<(String, String, String)> {
+            let multi: Vec<String> = match observe(|| {
+                e.parse_multi(texts.iter().map(|s| s.as_str()))
+                    .into_iter()
+                    .map(|r| match r {
+                        Ok(v) => format!("Ok({})", canon_real_narsese(&v)),
+                        Err(_) => "Err".to_string(),
+                    })
+                    .collect::<Vec<_>>()
+            }) {
+                Obs::Ret(v) => v,
+                Obs::Panic(_) => vec!["PANIC".into(); texts.len()],
+            };
+            texts
+                .iter()
+                .enumerate()
+                .map(|(i, t)| {
+                    let chars = match observe(|| e.parse_chars::<Narsese>(t.chars().collect()).map(|v| canon_real_narsese(&v)).map_err(|_| ())) {
+                        Obs::Ret(Ok(c)) => format!("Ok({})", c),
+                        Obs::Ret(Err(_)) => "Err".to_string(),
+                        Obs::Panic(_) => "PANIC".to_string(),
+                    };
+                    (class_with(e, t), chars, multi.get(i).cloned().unwrap_or_default())
+                })
+                .collect()
+        };
+        let here = run(&derived, &texts);
+        let (d2, t2) = (derived.clone(), texts.clone());
+        let there = std::thread::spawn(move || run(&d2, &t2)).join().unwrap_or_default();
+        for (i, (a, b, c)) in here.iter().enumerate() {
+            let fresh = there.get(i).cloned().unwrap_or_default();
+            if a != b || a != c || *a != fresh.0 {
+                ctx.report.violate(
+                    format!("C08|blank-variant|{}|{:?}", base.name(), blank),
+                    format!(
+                        "[{}] with a copy of the format whose blank is {:?}: {:?} gives parse = {}, parse_chars = {}, parse_multi position = {}, parse on a fresh thread = {}",
+                        base.name(), blank, texts[i], a, b, c, fresh.0
+                    ),
+                    J::obj().set("kind", "blank-variant").set("format", base.name()),
+                );
+                return;
+            }
+        }
+    }
+}
+
 fn check_fresh(ctx: &mut Ctx, f: Fmt, s: &str) {
     ctx.report.eval();
     ctx.report.bump("family.history-vs-fresh-thread");
@@ -628,6 +702,12 @@ pub fn run(ctx: &mut Ctx) {
     }
     // formats that differ from a shipped one in a single copula: "the format" is a value, so two
     // formats that share most (not all) of their vocabulary must not influence each other either
+    for base in ALL_FMT {
+        idx += 1;
+        if ctx.mine(idx) {
+            blank_variant_check(ctx, base);
+        }
+    }
     for (bi, base) in ALL_FMT.iter().enumerate() {
         for ci in 0..13usize {
             idx += 1;
@@ -723,6 +803,24 @@ pub fn run(ctx: &mut Ctx) {
             }
         }
         check_seq(ctx, f, &seq, &names, "random-sequences");
+        if i % 9 == 0 {
+            // prefixes of one buffer (same start address) and the buffer itself in one batch
+            ctx.report.eval();
+            ctx.report.bump("family.same-start-slices-in-one-batch");
+            let full = &seq[rng.below(seq.len())];
+            match prefix_slice_batch(f, full) {
+                Some(rows) => {
+                    if let Some((s, b, a)) = rows.into_iter().find(|(_, b, a)| b != a) {
+                        ctx.report.violate(
+                            format!("C08|same-start-slices|{}|{}", f.name(), full),
+                            format!("[{}] {:?}, passed as a prefix slice of the buffer {:?} in one parse_multi call with other prefixes of it, = {} but alone {}", f.name(), s, full, b, a),
+                            J::obj().set("kind", "same-start-slices").set("format", f.name()).set("input", full.as_str()),
+                        );
+                    }
+                }
+                None => {} // a panic: owned by the sequence checks above
+            }
+        }
         if i % 50 == 0 {
             ctx.report.sample(|| J::obj().set("format", f.name()).set("sequence", J::Arr(seq.iter().map(J::from).collect())));
             check_single(ctx, f, &seq[0]);
@@ -756,6 +854,15 @@ pub fn replay(ctx: &mut Ctx, d: &J) -> Option<()> {
     let f = fmt_of(d)?;
     match jstr(d, "kind")?.as_str() {
         "big-batch" => {}
+        "blank-variant" => blank_variant_check(ctx, f),
+        "same-start-slices" => {
+            let full = jstr(d, "input")?;
+            if let Some(rows) = prefix_slice_batch(f, &full) {
+                if let Some((s, b, a)) = rows.into_iter().find(|(_, b, a)| b != a) {
+                    ctx.report.violate(format!("C08|same-start-slices|{}|{}", f.name(), full), format!("{:?} = {} in the batch but alone {}", s, b, a), d.clone());
+                }
+            }
+        }
         "derived-format" => {
             let ci = d.get("copula_index")?.as_i128()? as usize;
             let bi = ALL_FMT.iter().position(|x| *x == f)?;
